@@ -19,14 +19,14 @@ func init() {
 		ID: "C06", Level: "exploration", Primary: "pipeline_shapes", EvalCount: "requests_numbered",
 		Rule: "one pipeline = N (1..256) requests of mixed operations on one connection, message IDs a random permutation-like draw (so Request.ID cannot be confused with the message ID), written in one " +
 			"segment or dribbled; some requests have no route (gaps in the observed numbering); a PRNG-chosen subset of handlers parks on a rendezvous: handler i returns only after handler i+d " +
-			"(or a handler on a second connection) has entered; a second family of pipelines performs a real StartTLS upgrade in the middle (numbering must continue across it); a third has its first handler blocked inside Write by a client that does not read (later handlers must still be entered); a fourth repeats message IDs within the pipeline (requests identified by DN, every handler waiting for all others); a fifth keeps a handler blocked while its own connection ends (FIN, reset, Unbind, malformed frame) and requires connections that exist already and connections made afterwards to be served meanwhile. Oracle: Request.ID == 1-based position in the client's send order for every handler invocation; every rendezvous completes. " +
+			"(or a handler on a second connection) has entered; a second family of pipelines performs a real StartTLS upgrade in the middle (numbering must continue across it); a third has its first handler blocked inside Write by a client that does not read (later handlers must still be entered); a fourth repeats message IDs within the pipeline (requests identified by DN, every handler waiting for all others); a fifth keeps a handler blocked while its own connection ends (FIN, reset, Unbind, malformed frame) and requires connections that exist already and connections made afterwards to be served meanwhile; a sixth sends N requests and, in the same write, an Unbind / half-close / close (every request that was read is handed to its handler). Oracle: Request.ID == 1-based position in the client's send order for every handler invocation; every rendezvous completes. " +
 			"distinct_nontrivial = distinct (N, operation mix, rendezvous pattern, write mode) signatures with at least one satisfied rendezvous",
 		Assume: []string{"extended requests are identified by the exact-name route that served them (their message ID is not exposed to handlers)",
 			"a rendezvous that does not complete within the watchdog is judged only by the recorded enter/exit order (serial dispatch), otherwise inconclusive"},
 		Phases: func(tier string, seed int64) []Phase {
 			return []Phase{{Name: "pipelines", Run: c06Run}}
 		},
-		MinObserved: []string{"requests_numbered", "rendezvous_satisfied", "cross_connection_rendezvous_satisfied", "pipelines_with_starttls_upgrade", "pipelines_with_a_handler_blocked_in_write", "requests_served_through_the_default_route", "pipelines_with_repeated_message_ids", "connections_served_while_another_connections_handler_is_blocked"},
+		MinObserved: []string{"requests_numbered", "rendezvous_satisfied", "cross_connection_rendezvous_satisfied", "pipelines_with_starttls_upgrade", "pipelines_with_a_handler_blocked_in_write", "requests_served_through_the_default_route", "pipelines_with_repeated_message_ids", "connections_served_while_another_connections_handler_is_blocked", "fire_and_forget_pipelines"},
 	})
 }
 
@@ -804,6 +804,76 @@ func c06OtherConnections(c *Ctx, r *Rand, idx int) {
 	}
 }
 
+// c06FireAndForget: a client that does not wait for answers - N requests and then, in the same write, an Unbind, a
+// half-close or a close. Every one of the N requests was read before the connection ended, so every one of them is
+// handed to its handler (numbered 1..N), whatever the connection does next.
+func c06FireAndForget(c *Ctx, r *Rand, idx int) {
+	n := 2 + r.Intn(14)
+	var mu sync.Mutex
+	got := map[int]int{} // position (from the DN) -> Request.ID
+	closed := make(chan struct{})
+	var once sync.Once
+	srv, err := startSrv(SrvCfg{OnClose: func(int) { once.Do(func() { close(closed) }) }}, func(m *gldap.Mux) {
+		m.Delete(func(w *gldap.ResponseWriter, req *gldap.Request) {
+			if dm, err := req.GetDeleteMessage(); err == nil {
+				var pos int
+				fmt.Sscanf(dm.DN, "cn=p%d", &pos)
+				mu.Lock()
+				got[pos] = req.ID
+				mu.Unlock()
+			}
+			w.Write(req.NewResponse(gldap.WithApplicationCode(gldap.ApplicationDelResponse), gldap.WithResponseCode(0)))
+		})
+	})
+	if err != nil {
+		c.Inconclusive("server start: " + err.Error())
+		return
+	}
+	defer srv.StopWithin(patience)
+	cn, err := net.Dial("tcp", srv.Addr)
+	if err != nil {
+		c.Inconclusive("dial: " + err.Error())
+		return
+	}
+	var buf []byte
+	for i := 1; i <= n; i++ {
+		buf = append(buf, sber.Message(int64(i), sber.DelRequest([]byte(fmt.Sprintf("cn=p%d", i))), nil).Encode()...)
+	}
+	ending := []string{"unbind", "half-close", "close"}[idx%3]
+	if ending == "unbind" {
+		buf = append(buf, sber.Message(int64(n+1), sber.UnbindRequest(), nil).Encode()...)
+	}
+	cn.Write(buf)
+	switch ending {
+	case "half-close":
+		cn.(*net.TCPConn).CloseWrite()
+	case "close":
+		cn.Close()
+	}
+	select {
+	case <-closed:
+	case <-time.After(patience):
+		c.Inconclusive("fire-and-forget: the connection was never reported closed")
+		cn.Close()
+		return
+	}
+	cn.Close()
+	mu.Lock()
+	defer mu.Unlock()
+	c.Count("fire_and_forget_pipelines", 1)
+	c.Count("requests_numbered", int64(n))
+	if ending != "close" && len(got) != n { // after a full close the server may see a reset before it has read everything
+		c.Violate("a request that was read was never handed to its handler", fmt.Sprintf("%d requests followed by %s in one write: only %d reached their handler", n, ending, len(got)), map[string]any{"ending": ending, "handled": fmt.Sprint(got)})
+	}
+	for pos, id := range got {
+		if id != pos {
+			c.Violate("Request.ID is not the arrival position", fmt.Sprintf("fire-and-forget pipeline: request at position %d numbered %d", pos, id), nil)
+			break
+		}
+	}
+	c.Distinct("pipeline_shapes", fmt.Sprintf("fire-and-forget/%d/%s", n, ending))
+}
+
 func c06Run(c *Ctx) {
 	pki := newPKI()
 	for i := 0; i < c.N(12, 200); i++ {
@@ -811,6 +881,9 @@ func c06Run(c *Ctx) {
 	}
 	for i := 0; i < c.N(30, 500); i++ {
 		c06OddMessageIDs(c, c.Rng.Sub(fmt.Sprintf("ids%d", i)), i)
+	}
+	for i := 0; i < c.N(60, 900); i++ {
+		c06FireAndForget(c, c.Rng.Sub(fmt.Sprintf("ff%d", i)), i)
 	}
 	for i := 0; i < c.N(15, 200); i++ {
 		c06OtherConnections(c, c.Rng.Sub(fmt.Sprintf("oc%d", i)), i)
